@@ -15,17 +15,13 @@ SYMS = ["x", "y", "z", "u", "v"]
 CLASS = {"I": "MIntPoly", "E": "MExprPoly"}
 
 # known library defect (same loop as in C21): UDictWrapper::pow(a, 0) never terminates (msymenginepoly.h).
-# Excluded by construction, counted as skip("known:<tag>"); VERIF_POLY_KNOWN_OFF=all|<tag> switches the exclusion off.
-KNOWN_OFF = set(t for t in os.environ.get("VERIF_POLY_KNOWN_OFF", "").split(",") if t)
+# While the finding with matcher K_POW0 is active (GUIDE, known-findings protocol) exponent 0 is excluded by
+# construction and counted as skip("known:<tag>"); otherwise it is generated and judged.
 K_POW0 = "pow_exponent_zero_hang"
 PROBES = [
     (K_POW0, '(symbol "x") (mint_from_dict [$0] [[[1] 1]]) (pow_mpoly $1 0)', ["MIntPoly", [["Symbol", "x"]], [[[0], "1"]]]),
     (K_POW0, '(mexpr_from_dict [] []) (pow_mpoly $0 0)', ["MExprPoly", [], [[[], ["Integer", "1"]]]]),
 ]
-
-
-def excluded(tag):
-    return not ("all" in KNOWN_OFF or tag in KNOWN_OFF)
 
 
 # ------------------------------------------------------------------ case data -> reference / recipes
@@ -159,7 +155,7 @@ class C22(HangJudge, Check):
     assumptions = ["Python Fraction dictionary arithmetic is the reference; dumped Expression coefficients are evaluated in Python",
                    "from_dict precondition: distinct variables, exponent vectors of the variables' length (the ops decline otherwise)",
                    "eval is given a value for every variable of the polynomial (the header marks missing values as TODO)",
-                   "pow_mpoly(p, 0) does not terminate (known defect, excluded by construction, skip known:pow_exponent_zero_hang)",
+                   "pow_mpoly(p, 0) does not terminate (known finding; excluded by construction as skip known:pow_exponent_zero_hang while the finding is active)",
                    "MExprPoly may store coefficients that vanish only after expansion; compared by value",
                    "documented exceptions of from_basic decline a case; an exception of an arithmetic op or query is a violation"]
     tiers = {"quick": {"examples": 1400}, "thorough": {"examples": 100000}}
@@ -182,7 +178,7 @@ class C22(HangJudge, Check):
 
     # ------------------------------------------------------------ helpers
     def known(self, tag):
-        if tag is not None and excluded(tag):
+        if tag is not None and self.tag_active(tag):
             self.count()
             self.skip("known:" + tag)
             return True
@@ -242,10 +238,16 @@ class C22(HangJudge, Check):
             if self.known(case["tag"]):
                 return
             self.count()
-            try:
-                res = self.run(case["prog"], timeout=5)
-            except DriverTimeout:
-                raise Violation("does not terminate (5 s, trivial operands, result 1 required): %s" % case["prog"], {"tag": case["tag"]})
+            res = None
+            for _ in range(2):
+                try:
+                    res = self.run(case["prog"], timeout=10)
+                    break
+                except DriverTimeout:
+                    pass
+            if res is None:
+                raise Violation("does not terminate (no answer within 10 s, twice; trivial operands, result 1 required): %s"
+                                % case["prog"], {"tag": case["tag"]})
             if B(res[-1]) != case["want"]:
                 raise Violation("%s returned %s, expected %s" % (case["prog"], res[-1], case["want"]), {"tag": case["tag"]})
             return
